@@ -8,6 +8,11 @@ Every family below is a closed, named list (the alphabet of the V-family of C02)
                  (div, blockquote, pre, address, section, article, center, figure>figcaption, dl>dt, dl>dd), the paragraph in front of
                  a table written as that table's <caption>, header cells <th>, row groups thead/tbody/tfoot, ordered lists,
                  headings h4..h6
+  HTML_BARE      anonymous text: a paragraph written as a bare text node of its parent (body, li, td, div ...) instead of an element of
+                 its own - the text node in front of the first child element (mode head), the text node that directly follows the end
+                 tag of a sibling block element, its "tail" (mode tail), or every paragraph that does not directly follow another bare
+                 one (mode all; this includes the everyday <li>text</li>, <td>text</td>) - alone and combined with every HTML_BLOCK
+                 spelling of the sibling elements (the tail of a captioned table, of a <th> table, of an <ol>, of a <pre>, of <h4> ...)
   HTML_SPLIT     inline markup inside a word: every text is written as first half + <b|i|em|strong|span|u|font|a|sup|sub|small|
                  mark|code>second half</..> (phrasing elements do not separate words)
   MIME_HDR       spellings of the MIME headers of the root part of an MHTML archive that RFC 2045 / 5322 declare equivalent:
@@ -50,6 +55,11 @@ HTML_TABLE_AS = ("caption", "th", "rowgroups")
 HTML_OTHER_AS = ("ol", "h456")
 HTML_BLOCK = tuple(HTML_P_AS) + HTML_TABLE_AS + HTML_OTHER_AS
 HTML_BLOCK_QUICK = ("div", "blockquote", "pre", "figcaption", "dt", "dd", "caption", "th", "rowgroups", "ol", "h456")
+HTML_BARE_MODES = ("tail", "head", "all")
+# bare:<mode> (siblings spelled the ordinary way) and bare:<mode>:<sibling spelling>
+HTML_BARE = tuple("bare:" + m for m in HTML_BARE_MODES) + tuple("bare:%s:%s" % (m, c) for m in HTML_BARE_MODES for c in HTML_BLOCK)
+HTML_BARE_QUICK = ("bare:tail", "bare:head", "bare:all") + tuple("bare:tail:" + c for c in ("div", "pre", "dd", "caption", "th", "rowgroups", "ol", "h456")) \
+    + ("bare:all:caption", "bare:head:ol")
 HTML_SPLIT = ("b", "i", "em", "strong", "span", "u", "font", "a", "sup", "sub", "small", "mark", "code")
 HTML_SPLIT_QUICK = ("b", "span", "a")
 
@@ -70,6 +80,15 @@ class HtmlAs:
         self.xhtml = xhtml
         self.images = images or {}
         self.split = variant[6:] if variant.startswith("split:") else None
+        self.bare = None          # HTML_BARE mode: which paragraphs are written as bare text nodes of their parent
+        self.bare_used = 0        # number of paragraphs written bare so far
+        if variant.startswith("bare:"):
+            if variant not in HTML_BARE:
+                raise ValueError(variant)
+            parts = variant.split(":")
+            self.bare = parts[1]
+            self.v = parts[2] if len(parts) > 2 else None      # spelling of the sibling elements (None: the ordinary one)
+            return
         if self.split is None and variant not in HTML_BLOCK:
             raise ValueError(variant)
         if self.split is not None and self.split not in HTML_SPLIT:
@@ -134,6 +153,7 @@ class HtmlAs:
     def blocks(self, bs):
         out = []
         i = 0
+        prev_bare = False         # the previous block of this sequence is a bare text node (two adjacent ones would be ONE text node)
         while i < len(bs):
             b = bs[i]
             k = b[0]
@@ -141,6 +161,17 @@ class HtmlAs:
                 if self.v == "caption" and i + 1 < len(bs) and bs[i + 1][0] == "tbl":
                     out.append(self.table(bs[i + 1][1], b[1]))      # the paragraph in front of a table is its caption
                     i += 2
+                    prev_bare = False
+                    continue
+                bare = False
+                if self.bare and b[1] and not prev_bare:
+                    first = not out
+                    bare = {"tail": not first, "head": first and len(bs) > 1, "all": True}[self.bare]
+                if bare:
+                    out.append(self.inlines(b[1]))                  # anonymous text: no element of its own
+                    self.bare_used += 1
+                    prev_bare = True
+                    i += 1
                     continue
                 out.append(self.para(b[1]))
             elif k == "h":
@@ -159,6 +190,7 @@ class HtmlAs:
             else:
                 raise NotImplementedError("HTML block %r" % (k,))
             i += 1
+            prev_bare = False
         return "".join(out)
 
     def body(self, doc, unit=None):
@@ -194,6 +226,17 @@ def html_variant_applies(variant, doc):
             return any(p_before_tbl(y) for y in x)
         return False
     units = doc[2]
+    if variant.startswith("bare:"):
+        parts = variant.split(":")
+        if len(parts) > 2 and not html_variant_applies(parts[2], doc):
+            return False          # the sibling spelling changes nothing here: the term belongs to bare:<mode>
+        w = HtmlAs(variant, True)
+        try:
+            for i in range(len(units)):
+                w.body(doc, unit=i)
+        except NotImplementedError:
+            return False
+        return w.bare_used > 0
     if variant.startswith("split:"):
         return has(units, "t")
     if variant in HTML_P_AS:
